@@ -17,9 +17,18 @@
 (*    compare, purgeConsumedLocation, purgeBuffers, buildSample, Push, Pop,  *)
 (*    Flush) on the modulus M, run in lock step with the session.  TLC       *)
 (*    checks the normative predicates on what it emits, exhaustively for     *)
-(*    small streams.  Impl = "asis" is the code as it is; Impl = "fixed"     *)
-(*    carries the two repairs described at PurgeConsumedLocation /           *)
-(*    PurgeBuffers below.                                                    *)
+(*    small streams.  Impl = "asis" is the code as it is.  Repairs, named:   *)
+(*      A  purgeConsumedLocation releases the whole consumed location, not   *)
+(*         one packet (as is, filled.head lags behind active.head after a    *)
+(*         multi-packet sample and stale packets stay in the buffer);        *)
+(*      B  purgeBuffers does not advance active/filled a second time when    *)
+(*         buildSample has already dropped a run itself (as is, filled.head  *)
+(*         can overtake filled.tail and the loop walks the whole ring);      *)
+(*      C  the builder remembers the sequence number up to which it has      *)
+(*         consumed or dropped and ignores older packets (as is, once its    *)
+(*         locations are empty it has no memory and a late or duplicated     *)
+(*         packet is emitted again / out of order).                          *)
+(*    Impl = "fixAB" has A and B, Impl = "fixABC" all three.                 *)
 (*                                                                           *)
 (* Algo = "none" only generates sessions (used with -simulate and the        *)
 (* seeded Pick below to sample long streams for the replay).                 *)
@@ -38,12 +47,12 @@ CONSTANTS M,            \* sequence-number modulus
           Modes,        \* subset of {"clean", "lossy", "dup", "pops", "all"}: what may happen besides reordering
           MaxLoss, MaxDup, MaxPopCalls,
           Algo,         \* "none" | "abstract" | "ring"
-          Impl,         \* "asis" | "fixed"
+          Impl,         \* "asis" | "fixAB" | "fixABC"
           Sampling      \* TRUE: every choice is one seeded random draw (for -simulate)
 
-VARIABLES phase, par, frames, pkts, script, status, nloss, ndup, npop, sb, emitted, pushed, premOK, bad
+VARIABLES phase, par, frames, pkts, script, pending, nextIdx, sent, nloss, ndup, npop, sb, emitted, pushed, premOK, bad
 
-vars == <<phase, par, frames, pkts, script, status, nloss, ndup, npop, sb, emitted, pushed, premOK, bad>>
+vars == <<phase, par, frames, pkts, script, pending, nextIdx, sent, nloss, ndup, npop, sb, emitted, pushed, premOK, bad>>
 
 Pick(S) == IF Sampling THEN RandomSubset(1, S) ELSE S
 \* in sampling mode: true with probability num/10
@@ -53,7 +62,9 @@ Chance(num) == \E r \in Pick(1..10) : r <= num
 NilPkt  == [tag |-> 0, seq |-> 0, ts |-> 0, head |-> FALSE, tail |-> FALSE, frame |-> 0]
 ZeroLoc == [h |-> 0, t |-> 0]
 SB0 == [buf |-> IF Algo = "ring" THEN [i \in 0..(M - 1) |-> NilPkt] ELSE <<>>,
-        filled |-> ZeroLoc, active |-> ZeroLoc, prep |-> <<>>, dropped |-> 0]
+        filled |-> ZeroLoc, active |-> ZeroLoc, prep |-> <<>>, dropped |-> 0,
+        floor |-> [valid |-> FALSE, seq |-> 0],      \* repair C only
+        spun |-> FALSE]    \* ghost: some purgeBuffers call iterated more often than filled had positions
 
 Empty(l)   == l.h = l.t
 HasData(l) == l.h # l.t
@@ -71,14 +82,14 @@ Release(s, i) == [s EXCEPT !.buf[i] = NilPkt]
 
 \* purgeConsumedLocation: releases filled.head if it lies before (or, forced, inside) `consume` --
 \* ONE packet per call.  After a sample of k packets filled.head therefore lags behind active.head.
-\* Impl = "fixed": release every packet of filled that lies before/inside the consumed location.
+\* Repair A: release every packet of filled that lies before/inside the consumed location.
 RECURSIVE PurgeConsumedLocation(_, _, _)
 PurgeConsumedLocation(s, consume, force) ==
   IF ~HasData(s.filled) THEN s
   ELSE LET c == Compare(consume, s.filled.h) IN
        IF c = "before" \/ (c = "inside" /\ force)
        THEN LET s1 == [Release(s, s.filled.h) EXCEPT !.filled.h = (s.filled.h + 1) % M]
-            IN IF Impl = "fixed" THEN PurgeConsumedLocation(s1, consume, force) ELSE s1
+            IN IF Impl # "asis" THEN PurgeConsumedLocation(s1, consume, force) ELSE s1
        ELSE s
 PurgeConsumedBuffers(s) == PurgeConsumedLocation(s, s.active, FALSE)
 
@@ -96,6 +107,9 @@ TooOld(s, l, delay) ==
                    kl == CHOOSE k \in kt : \A j \in kt : k >= j
                    d  == s.buf[RingAt(l, kh)].ts - s.buf[RingAt(l, kl)].ts
                IN (IF d < 0 THEN -d ELSE d) > delay
+
+\* repair C bookkeeping: the position up to which packets were consumed or given up only moves forward
+Raise(fl, pos) == IF Impl = "fixABC" /\ (~fl.valid \/ SeqBefore(fl.seq, pos, M)) THEN [valid |-> TRUE, seq |-> pos] ELSE fl
 
 \* the scan of buildSample: walks from active.head while packets are present and not after `active`
 RECURSIVE Scan(_, _, _)
@@ -118,7 +132,7 @@ BuildSample(s0, purging) ==
   IF Empty(consume) THEN [s |-> s2, built |-> FALSE]
   ELSE IF ~purging /\ s2.buf[consume.t].tag = 0 THEN [s |-> s2, built |-> FALSE]
   ELSE
-  LET s3 == [s2 EXCEPT !.active.h = consume.t] IN
+  LET s3 == [s2 EXCEPT !.active.h = consume.t, !.floor = Raise(s2.floor, consume.t)] IN
   IF ~s3.buf[consume.h].head
   THEN \* the run does not start at a partition head: it is dropped
        LET s4 == [s3 EXCEPT !.dropped = (s3.dropped + Count(consume)) % M]
@@ -127,28 +141,35 @@ BuildSample(s0, purging) ==
        IN [s |-> PurgeConsumedBuffers(PurgeConsumedLocation(s4, consume, TRUE)), built |-> TRUE]
 
 \* purgeBuffers(flush)
-RECURSIVE PurgeLoop(_, _, _, _)
-PurgeLoop(s, flush, delay, maxLate) ==
-  IF ~((TooOld(s, s.filled, delay) \/ Count(s.filled) > maxLate \/ flush) /\ HasData(s.filled)) THEN s
+RECURSIVE PurgeLoopN(_, _, _, _, _)
+PurgeLoop(s, flush, delay, maxLate) == PurgeLoopN(s, flush, delay, maxLate, RingLen(s.filled))
+PurgeLoopN(s0, flush, delay, maxLate, budget) ==
+  IF ~((TooOld(s0, s0.filled, delay) \/ Count(s0.filled) > maxLate \/ flush) /\ HasData(s0.filled)) THEN s0
   ELSE
+  LET s == IF budget <= 0 THEN [s0 EXCEPT !.spun = TRUE] ELSE s0 IN
   LET sA == IF Empty(s.active) THEN [s EXCEPT !.active = s.filled] ELSE s IN
   IF HasData(sA.active) /\ sA.active.h = sA.filled.h
   THEN LET r == BuildSample(sA, TRUE) IN
-       IF r.built THEN PurgeLoop(r.s, flush, delay, maxLate)
-       ELSE IF Impl = "fixed" /\ r.s.filled.h # sA.filled.h
-            THEN \* repair: buildSample has already dropped the run and moved filled.head itself
-                 PurgeLoop(r.s, flush, delay, maxLate)
+       IF r.built THEN PurgeLoopN(r.s, flush, delay, maxLate, budget - 1)
+       ELSE IF Impl # "asis" /\ r.s.filled.h # sA.filled.h
+            THEN \* repair B: buildSample has already dropped the run and moved filled.head itself
+                 PurgeLoopN(r.s, flush, delay, maxLate, budget - 1)
             ELSE \* "could not build the sample so drop it" -- also taken when buildSample dropped a run
                  \* that did not start at a head and advanced both locations on its own
                  LET sB == [r.s EXCEPT !.active.h = (r.s.active.h + 1) % M, !.dropped = (r.s.dropped + 1) % M]
-                     sC == [Release(sB, sB.filled.h) EXCEPT !.filled.h = (sB.filled.h + 1) % M]
-                 IN PurgeLoop(sC, flush, delay, maxLate)
-  ELSE LET sC == [Release(sA, sA.filled.h) EXCEPT !.filled.h = (sA.filled.h + 1) % M]
-       IN PurgeLoop(sC, flush, delay, maxLate)
+                     sC == [Release(sB, sB.filled.h) EXCEPT !.filled.h = (sB.filled.h + 1) % M,
+                                                            !.floor = Raise(sB.floor, (sB.filled.h + 1) % M)]
+                 IN PurgeLoopN(sC, flush, delay, maxLate, budget - 1)
+  ELSE LET sC == [Release(sA, sA.filled.h) EXCEPT !.filled.h = (sA.filled.h + 1) % M,
+                                                      !.floor = Raise(sA.floor, (sA.filled.h + 1) % M)]
+       IN PurgeLoopN(sC, flush, delay, maxLate, budget - 1)
 
 PurgeBuffers(s, flush, delay, maxLate) == PurgeLoop(PurgeConsumedBuffers(s), flush, delay, maxLate)
 
 DoPush(s, p, delay, maxLate) ==
+  IF Impl = "fixABC" /\ s.floor.valid /\ p.seq # s.floor.seq /\ ~SeqBefore(s.floor.seq, p.seq, M)
+  THEN s          \* repair C: older than what was already consumed or given up -- ignored
+  ELSE
   LET s1 == [s EXCEPT !.buf[p.seq] = p]
       c  == Compare(s1.filled, p.seq)
       s2 == CASE c = "void"   -> [s1 EXCEPT !.filled = [h |-> p.seq, t |-> (p.seq + 1) % M]]
@@ -170,6 +191,8 @@ DoPop(s) ==
 \* the normative operators, on the history so far).  The literal script is excluded from the VIEW of
 \* exhaustive runs (mcview); it is what gets printed for the replay.
 NPk == Len(pkts)
+Min(a, b) == IF a < b THEN a ELSE b
+Max(a, b) == IF a > b THEN a ELSE b
 FrameTotal == LET RECURSIVE Sum(_)
                   Sum(k) == IF k = 0 THEN 0 ELSE frames[k].size + Sum(k - 1)
               IN Sum(Len(frames))
@@ -189,9 +212,10 @@ MkPkts ==
 
 Init == /\ phase = "setup"
         /\ par = [maxLate |-> 0, delay |-> 0, startBack |-> 0, markers |-> TRUE, window |-> 1, mode |-> "clean"]
-        /\ frames = <<>> /\ pkts = <<>> /\ script = <<>> /\ status = <<>>
+        /\ frames = <<>> /\ pkts = <<>> /\ script = <<>> /\ pending = {} /\ nextIdx = 1 /\ sent = {}
         /\ nloss = 0 /\ ndup = 0 /\ npop = 0 /\ sb = SB0 /\ emitted = <<>>
         /\ pushed = {} /\ premOK = TRUE /\ bad = {}
+        /\ TLCSet(1, {})             \* per-worker register: failure classes already printed
 
 Setup ==
   /\ phase = "setup"
@@ -199,31 +223,43 @@ Setup ==
         w \in Pick(Windows), md \in Pick(Modes) :
         par' = [maxLate |-> ml, delay |-> d, startBack |-> b, markers |-> mk, window |-> w, mode |-> md]
   /\ phase' = "frames"
-  /\ UNCHANGED <<frames, pkts, script, status, nloss, ndup, npop, sb, emitted, pushed, premOK, bad>>
+  /\ UNCHANGED <<frames, pkts, script, pending, nextIdx, sent, nloss, ndup, npop, sb, emitted, pushed, premOK, bad>>
 
-SameChoices == IF ~SameTs THEN {FALSE} ELSE IF Sampling THEN {r <= 2 : r \in RandomSubset(1, 1..10)} ELSE BOOLEAN
+\* frames sharing a timestamp: in exhaustive runs whenever SameTs, when sampling only in "all" sessions
+SameChoices == IF ~SameTs THEN {FALSE}
+               ELSE IF ~Sampling THEN BOOLEAN
+               ELSE IF par.mode # "all" THEN {FALSE} ELSE {r <= 2 : r \in RandomSubset(1, 1..10)}
+\* start positions for the sampled sessions: the stream begins 0..39 packets before the wrap, or far from it
+SimStartBacks == (0..39) \cup {30000}
 
 AddFrame ==
   /\ phase = "frames"
   /\ \E size \in Pick(FrameSizes), same \in SameChoices :
         /\ FrameTotal + size <= MaxPackets
         /\ frames' = Append(frames, [size |-> size, same |-> same /\ frames # <<>>])
-  /\ UNCHANGED <<phase, par, pkts, script, status, nloss, ndup, npop, sb, emitted, pushed, premOK, bad>>
+  /\ UNCHANGED <<phase, par, pkts, script, pending, nextIdx, sent, nloss, ndup, npop, sb, emitted, pushed, premOK, bad>>
 
 EndFrames ==
   /\ phase = "frames" /\ frames # <<>>
   /\ Sampling => (FrameTotal >= MinPackets /\ (FrameTotal + 3 > MaxPackets \/ Chance(1)))
   /\ pkts' = MkPkts
-  /\ status' = [i \in 1..FrameTotal |-> "new"]
+  /\ pending' = 1..Min(par.window, FrameTotal) /\ nextIdx' = Min(par.window, FrameTotal) + 1 /\ sent' = {}
   /\ phase' = "arrive"
   /\ UNCHANGED <<par, frames, script, nloss, ndup, npop, sb, emitted, pushed, premOK, bad>>
 
-New == {i \in DOMAIN status : status[i] = "new"}
-Lowest == CHOOSE i \in New : \A j \in New : i <= j
-Deliverable == {i \in New : Cardinality({j \in New : j < i}) < par.window}
-\* sampling: mostly in order, otherwise any deliverable packet
-DeliverChoices == IF ~Sampling THEN Deliverable
-                  ELSE IF Chance(6) THEN {Lowest} ELSE RandomSubset(1, Deliverable)
+\* The network holds at most `window` packets: `pending` is the set of the (up to) `window` oldest
+\* packets not yet delivered or lost, any of which may come next -- a packet is thus overtaken only by
+\* packets that entered the network while fewer than `window` older ones were still under way.
+Lowest == CHOOSE i \in pending : \A j \in pending : i <= j
+\* sampling: mostly in order, otherwise any pending packet
+DeliverChoices == IF ~Sampling THEN pending
+                  ELSE IF Chance(6) THEN {Lowest} ELSE RandomSubset(1, pending)
+\* take i out of the network and let the next packets of the stream in
+TakeOut(i) ==
+  LET p1 == pending \ {i}
+      hi == Min(nextIdx + (par.window - Cardinality(p1)) - 1, NPk)
+  IN /\ pending' = p1 \cup (nextIdx..hi)
+     /\ nextIdx' = Max(nextIdx, hi + 1)
 MayLose == par.mode \in {"lossy", "all"}
 MayDup  == par.mode \in {"dup", "all"}
 MayPop  == par.mode \in {"pops", "all"}
@@ -235,28 +271,27 @@ PushStep(i) ==
   /\ sb' = IF Algo = "ring" THEN DoPush(sb, pkts[i], par.delay, par.maxLate) ELSE sb
 
 Deliver ==
-  /\ phase = "arrive" /\ New # {}
+  /\ phase = "arrive" /\ pending # {}
   /\ \E i \in DeliverChoices :
         /\ PushStep(i)
-        /\ status' = [status EXCEPT ![i] = "sent"]
-        /\ premOK' = (premOK /\ ArrivalOK(pkts, pushed, i, par.maxLate))
+        /\ TakeOut(i) /\ sent' = sent \cup {i}
+        /\ premOK' = IF Algo = "none" THEN premOK ELSE (premOK /\ ArrivalOK(Anchors(pkts), pushed, i, par.maxLate))
   /\ UNCHANGED <<phase, par, frames, pkts, nloss, ndup, npop, emitted, bad>>
 
 Lose ==
-  /\ phase = "arrive" /\ New # {} /\ nloss < MaxLoss /\ MayLose
+  /\ phase = "arrive" /\ pending # {} /\ nloss < MaxLoss /\ MayLose
   /\ Sampling => Chance(1)
-  /\ \E i \in Pick(Deliverable) : status' = [status EXCEPT ![i] = "lost"]
+  /\ \E i \in Pick(pending) : TakeOut(i)
   /\ nloss' = nloss + 1
-  /\ UNCHANGED <<phase, par, frames, pkts, script, ndup, npop, sb, emitted, pushed, premOK, bad>>
+  /\ UNCHANGED <<phase, par, frames, pkts, script, sent, ndup, npop, sb, emitted, pushed, premOK, bad>>
 
 \* a packet that was delivered arrives once more (now or much later)
-Sent == {i \in DOMAIN status : status[i] = "sent"}
 Dup ==
-  /\ phase = "arrive" /\ ndup < MaxDup /\ MayDup /\ Sent # {}
+  /\ phase = "arrive" /\ ndup < MaxDup /\ MayDup /\ sent # {}
   /\ Sampling => Chance(1)
-  /\ \E i \in Pick(Sent) : PushStep(i)
+  /\ \E i \in Pick(sent) : PushStep(i)
   /\ ndup' = ndup + 1
-  /\ UNCHANGED <<phase, par, frames, pkts, status, nloss, npop, emitted, premOK, bad>>
+  /\ UNCHANGED <<phase, par, frames, pkts, pending, nextIdx, sent, nloss, npop, emitted, premOK, bad>>
 
 Vec == [maxLate |-> par.maxLate, delay |-> par.delay, startBack |-> par.startBack, markers |-> par.markers,
         window |-> par.window, mode |-> par.mode,
@@ -304,7 +339,11 @@ PopAllRing(s, acc) ==
 Emit(new) ==
   LET j == Judge(emitted, new) IN
   /\ emitted' = j.em /\ bad' = bad \cup j.bad
-  /\ (j.bad \subseteq bad) \/ PrintT(<<"VERIF_CLASS", ToJson([classes |-> j.bad \ bad, dups |-> ndup > 0, vec |-> [Vec EXCEPT !.script = script']])>>)
+  /\ \A c \in j.bad :
+        LET k == <<c, ndup > 0>> IN
+        \/ k \in TLCGet(1)          \* this worker has printed an example of the class already
+        \/ /\ TLCSet(1, TLCGet(1) \cup {k})
+           /\ PrintT(<<"VERIF_CLASS", ToJson([class |-> c, dups |-> ndup > 0, vec |-> [Vec EXCEPT !.script = script']])>>)
 
 PopOne ==
   /\ phase = "arrive" /\ npop < MaxPopCalls /\ MayPop
@@ -318,7 +357,7 @@ PopOne ==
             /\ \/ Emit(<<>>)                                                \* Pop may return nil
                \/ \E r \in LegalRuns : Emit(<<RunTags(r)>>)
        [] OTHER -> UNCHANGED <<sb, emitted, bad>>
-  /\ UNCHANGED <<phase, par, frames, pkts, status, nloss, ndup, pushed, premOK>>
+  /\ UNCHANGED <<phase, par, frames, pkts, pending, nextIdx, sent, nloss, ndup, pushed, premOK>>
 
 PopAll ==
   /\ phase \in {"arrive", "drain"}
@@ -333,21 +372,21 @@ PopAll ==
                \/ \E r \in LegalRuns : Emit(<<RunTags(r)>>)
        [] OTHER -> UNCHANGED <<sb, emitted, bad>>
   /\ phase' = IF phase = "drain" /\ (Algo # "abstract" \/ emitted' = emitted) THEN "done" ELSE phase
-  /\ UNCHANGED <<par, frames, pkts, status, nloss, ndup, pushed, premOK>>
+  /\ UNCHANGED <<par, frames, pkts, pending, nextIdx, sent, nloss, ndup, pushed, premOK>>
 
 Flush ==
-  /\ phase = "arrive" /\ New = {}
+  /\ phase = "arrive" /\ pending = {}
   /\ script' = Log(-2)
   /\ sb' = IF Algo = "ring" THEN PurgeBuffers(sb, TRUE, par.delay, par.maxLate) ELSE sb
   /\ phase' = "drain"
-  /\ UNCHANGED <<par, frames, pkts, status, nloss, ndup, npop, emitted, pushed, premOK, bad>>
+  /\ UNCHANGED <<par, frames, pkts, pending, nextIdx, sent, nloss, ndup, npop, emitted, pushed, premOK, bad>>
 
 Next == Setup \/ AddFrame \/ EndFrames \/ Deliver \/ Lose \/ Dup \/ PopOne \/ PopAll \/ Flush
 
 Spec == Init /\ [][Next]_vars
 
 \* ---- what TLC checks -----------------------------------------------------------------------------
-mcview == <<phase, par, frames, pkts, status, nloss, ndup, npop, sb, emitted, pushed, premOK, bad>>
+mcview == <<phase, par, frames, pkts, pending, nextIdx, sent, nloss, ndup, npop, sb, emitted, pushed, premOK, bad>>
 ModelContiguousSameTs == "ContiguousSameTs" \notin bad
 ModelStartsAtHead     == "StartsAtHead" \notin bad
 ModelInOrder          == \A c \in bad : c \notin {"InOrder:repeat", "InOrder:older", "InOrder:other"}
@@ -360,8 +399,13 @@ ModelPremise == /\ StreamPremise(pkts, M) /\ par.delay = 0
 ModelComplete == (phase = "done" /\ ModelPremise) => CompleteAfterFlush(pkts, emitted)
 
 \* the locations of the ring stay well formed: filled.head never overtakes filled.tail
-ModelFilledSane == Algo = "ring" => RingLen(sb.filled) < M \div 2
+\* ... not even inside one purgeBuffers call (where the overtaken loop then walks the whole ring:
+\* 2^16 iterations in pion, each scanning the ring again when WithMaxTimeDelay is on)
+ModelFilledSane == Algo = "ring" => (RingLen(sb.filled) < M \div 2 /\ ~sb.spun)
 
 \* ---- vectors for the replay ----------------------------------------------------------------------
 EmitVec == (phase = "done") => PrintT(<<"VERIF_VEC", ToJson(Vec)>>)
+\* exhaustive runs of the transcription: every finished session with what the model says comes out of
+\* Pop, for the conformance replay (does pion emit exactly this?)
+EmitDone == (phase = "done") => PrintT(<<"VERIF_DONE", ToJson([vec |-> Vec, out |-> [i \in DOMAIN emitted |-> emitted[i].tags]])>>)
 =============================================================================
